@@ -10,7 +10,7 @@ RULE = ("E-INPUT: every dataset of <= 2 (thorough <= 3) data as sequences (each 
         "widths {20,55} x text {absent,'ab','<&>\"e-acute'}, for numeric times on a LinearScale and for datetime/date values "
         "(4 with a time of day, a date, a month end) on a TimeScale (caller-supplied, or the library default for directions up/left with default engine options); plus bare datetime.time data and a seeded time; x 4 "
         "directions x domain {derived, explicit} x 5 engine option sets (one of them also with a custom timeFn accessor over records whose 'time' field holds another value) x 2 (size, layer gap, padding, margin, tick display) "
-        "x 2 back-ends; plus 4-datum sets on axes of ~2000 and ~40000 units with 4 explicit domains. Each case = real Timeline(...).export(), parsed (R-SVG/R-TIKZ), compared with the affine model of the "
+        "x 2 back-ends; plus 4-datum sets on axes of ~2000, ~40000 and ~3,000,000 units with 4 explicit domains. Each case = real Timeline(...).export(), parsed (R-SVG/R-TIKZ), compared with the affine model of the "
         "caller's own data. Non-trivial: >= 2 layers or a displaced label.")
 ASSUMPTIONS = ["explicit widths only (no LaTeX in the image)", "the drawn ticks are the ticks the timeline's scale reports for some requested count 1..100 (the default first), with the formatter of that count",
                "margin scopes are not compared (documented TikZ limitation)"]
